@@ -119,10 +119,18 @@ def run_case(spec, lines, out):
                 drv = op[1]
                 target.values[...] = arr(drv)
                 emit("h_setdriver " + " ".join(drv), "ok")
-            elif op[0] == "readsf":
-                emit("h_readsf", "ok " + nums(stock.lifetime_model.sf))
-            elif op[0] == "readpdf":
-                emit("h_readpdf", "ok " + nums(stock.lifetime_model.pdf))
+            elif op[0] in ("readsf", "readpdf"):
+                which = op[0][4:]
+                try:
+                    emit(f"h_{op[0]}", "ok " + nums(getattr(stock.lifetime_model, which)))
+                except Exception:
+                    emit(f"h_{op[0]}", "err")
+                # the same table of a freshly built lifetime model with the current parameters (for the search oracles)
+                if not silent:
+                    try:
+                        emit(f"note fresh_{which} " + nums(getattr(cls(**kw, **given(k_cur)), which)), "ok")
+                    except Exception:
+                        emit(f"note fresh_{which} err", "ok")
             elif op[0] == "compute":
                 try:
                     if not silent:
